@@ -58,15 +58,15 @@ PROPS = {
     ),
     "C13": dict(
         design_ref="DESIGN.md 5.13",
-        level_text="Coq theorems over an executable model of the whole parser, for all token lists and all configurations: a strict run without errors is reproduced exactly by tolerant mode; tolerant mode never reports separator / unclosed-block errors; smart-semicolon mode is identical to default mode unless a '(' or '[' token follows a line break. The parser model is tied to the code by regenerated tables and a differential suite over trees, errors and final state in all four modes.",
+        level_text="Coq theorems over the executable parser model: for all inputs, a strict run without errors implies an identical tolerant run; tolerant mode never reports separator/unclosed errors; smart mode is identical to default mode unless a '(' or '[' follows a line break. MODE GRAMMARS (C13_modes_complete, GrammarModesProofs.v): COMPLETENESS of the parser in all four mode combinations w.r.t. GrammarModes.v, the grammar of C02 with exactly these differences - smart: a '(' or '[' that starts a line does not continue an expression (no call / index across the line break) and a statement may end in front of it exactly as if a semicolon preceded it; tolerant: a statement may end without separator in front of any token that cannot continue it (two statements on one line) and a block may be left open at the end of the input - every program of the mode grammar is parsed to exactly its tree, every complete statement kept, without error; with both modes off the mode grammar is the grammar of C02; the tolerant grammar contains the strict one.",
         level_note="Trusted: Coq kernel, translator xjs2v (token/precedence/handler tables, ASI list), extraction, harness/driver correspondence. Modelled not verified: the hand-written parser control flow (differentially tested on programs, token-level mutations and fragment soups x 4 modes). Open: the clauses 'tolerant accepts two statements on one line / open blocks keeping complete statements' and 'smart semicolon = as if a semicolon preceded' are explored by the oracle, not yet theorems.",
         technique="Coq proof (simulation of two parser runs by induction on fuel) + model/implementation correspondence",
         suites=[dict(suite="parse", n_quick=3000, n_thorough=100000,
                      what="sources x {strict,tolerant} x {smart on,off}: tree, EOF token, errors, error flag, final context",
                      projection=POS_FREE)],
         oracle_n_quick=1500, oracle_n_thorough=50000,
-        explanation="C13: tolerant_conservative, tolerant_no_separator_errors, smart_neutral proved for all token lists and configurations.",
-        open_statements=["C13_tolerant_accepts (two statements on one line, open blocks: complete statements kept)", "C13_smart_as_semicolon"],
+        explanation="C13: C13_tolerant_conservative, C13_tolerant_no_separator_errors, C13_smart_neutral, C13_modes_complete, C13_modes_off, C13_tolerant_contains_strict.",
+        open_statements=[],
         assumptions=["token lists come from the lexer model (C10); the parser never feeds back into the lexer"],
     ),
     "C11": dict(
@@ -110,15 +110,15 @@ PROPS = {
     ),
     "C06": dict(
         design_ref="DESIGN.md 5.6",
-        level_text="Proved for all trees over the printer regenerated from ast.go and the writer model: the semicolon option is read only by the statement-terminator operation (output without semicolons = output with them of the same operations minus the terminators), and indentation options made of blanks change only leading whitespace of lines (through cleanEmptyLines). Same-tree and idempotence clauses are explored by the oracle (they need the lexer/printer round trip).",
+        level_text="Coq theorems over the printer regenerated from ast.go and the writer, lexer and parser models. For all trees: the semicolon option is read only by the statement-terminator operation (output without semicolons = output with them of the same operations minus the terminators); indentation options made of blanks change only leading whitespace of lines (through cleanEmptyLines). ROUND TRIP (C06_pretty_round_trip, PrettyProofs.v): for every program of the grammar lexed from a source text and every pretty configuration that writes semicolons (any blank indent unit, with or without source map) the formatted output lexes and parses back, without error, to the tree it was printed from - the same tree as the compact output (C01_compact_round_trip) - provided no line of a multi-line literal ends with a blank (KF3). With semicolons off the clause is false (KF1, KF2: reported by the oracle). Byte-for-byte idempotence is explored by the oracle (re-formatting in every configuration).",
         level_note="Trusted: Coq kernel, translator xjs2v (WriteTo bodies), extraction, harness/driver correspondence (print suite over all option combinations). Modelled not verified: CodeWriter and cleanEmptyLines (strings.TrimSpace modelled on ASCII white space).",
         technique="Coq proof (simulation of two writer runs; structural invariant of the generated printer) + model/implementation correspondence",
         suites=[dict(suite="writer", n_quick=3000, n_thorough=100000, what="random histories of the exported CodeWriter methods: buffer, indent level, mappings", projection=WRITER_NOMAP),
                 dict(suite="print", n_quick=2000, n_thorough=50000, what="trees x compiler configurations: code",
                      projection=CODE_ONLY)],
         oracle_n_quick=600, oracle_n_thorough=20000, oracle_n_search=3000,
-        explanation="C06 (layout clauses): C06_semi_only, C06_indent_only.",
-        open_statements=["C06_same_tree (pretty output re-parses to the compact tree)", "C06_idempotent"],
+        explanation="C06: C06_semi_only, C06_indent_only, C06_pretty_round_trip.",
+        open_statements=["C06_idempotent (formatting the formatted output reproduces it byte for byte): explored by the oracle; the proof attempt found the defect repaired by the fix of cleanEmptyLines (trailing whitespace-only comment at the end of the input)"],
     ),
     "C16": dict(
         design_ref="DESIGN.md 5.16",
